@@ -1023,7 +1023,64 @@ enum QOp {
 fn queue(p: &Params) -> Program {
     use QOp::*;
     let e0 = p.get("e0", 0) as usize;
-    let (init, progs): (Vec<u64>, Vec<Vec<QOp>>) = match p.get("prog", 0) {
+    let (init, progs): (Vec<u64>, Vec<Vec<QOp>>) = if p.get("gen", 0) != 0 {
+        gen_queue_program(p)
+    } else {
+        queue_catalogue(p.get("prog", 0))
+    };
+    queue_program(p, e0, init, progs)
+}
+
+/// Generated family: `threads` threads x exactly `k` operations over {push (a fresh value of the
+/// thread's parity class), pop, pop-if-even, pop-if-small} x 4 initial queues.
+pub const Q_LETTERS: i64 = 5;
+pub const Q_INITS: i64 = 4;
+
+pub fn gen_queue_cases(threads: usize, k: usize) -> i64 {
+    Q_INITS * Q_LETTERS.pow((threads * k) as u32)
+}
+
+fn gen_queue_program(p: &Params) -> (Vec<u64>, Vec<Vec<QOp>>) {
+    use QOp::*;
+    let threads = p.get("threads", 2) as usize;
+    let k = p.get("k", 2) as usize;
+    let mut idx = p.get("case", 0);
+    let init = match idx % Q_INITS {
+        0 => vec![],
+        1 => vec![2],
+        2 => vec![1, 2],
+        _ => vec![2, 4],
+    };
+    idx /= Q_INITS;
+    let mut progs = vec![];
+    let mut next_even = 10u64;
+    let mut next_odd = 11u64;
+    for _ in 0..threads {
+        let mut ops = vec![];
+        for _ in 0..k {
+            ops.push(match idx % Q_LETTERS {
+                0 => {
+                    next_even += 2;
+                    Push(next_even)
+                }
+                1 => {
+                    next_odd += 2;
+                    Push(next_odd)
+                }
+                2 => Pop,
+                3 => PopEven,
+                _ => PopSmall,
+            });
+            idx /= Q_LETTERS;
+        }
+        progs.push(ops);
+    }
+    (init, progs)
+}
+
+fn queue_catalogue(prog: i64) -> (Vec<u64>, Vec<Vec<QOp>>) {
+    use QOp::*;
+    match prog {
         0 => (vec![], vec![vec![Push(1), Push(2)], vec![Pop, PopEven], vec![Push(3)]]),
         1 => (vec![], vec![vec![Push(1)], vec![Push(2)], vec![Pop, Pop]]),
         2 => (vec![10], vec![vec![Pop], vec![Pop], vec![Push(4)]]),
@@ -1035,7 +1092,11 @@ fn queue(p: &Params) -> Program {
         7 => (vec![2, 4, 6], vec![vec![PopEven], vec![Pop]]),
         8 => (vec![2, 4], vec![vec![PopEven], vec![PopEven], vec![Push(8)]]),
         _ => (vec![3], vec![vec![PopEven, Pop], vec![Pop, Push(6)], vec![PopSmall]]),
-    };
+    }
+}
+
+fn queue_program(p: &Params, e0: usize, init: Vec<u64>, progs: Vec<Vec<QOp>>) -> Program {
+    use QOp::*;
     let ew = EWorld::new(e0);
     let run_op = |c: &ECtx, ew: &EWorld, h: &LocalHandle, op: QOp| {
         let g = h.pin();
@@ -1141,20 +1202,96 @@ pub fn on_list_finalize(m: &mut Monitor, id: usize) {
 fn list(p: &Params) -> Program {
     use LOp::*;
     let e0 = p.get("e0", 0) as usize;
-    let (init, progs): (Vec<usize>, Vec<Vec<LOp>>) = match p.get("prog", 0) {
+    let (init, progs): (Vec<usize>, Vec<Vec<LOp>>) = if p.get("gen", 0) != 0 {
+        gen_list_program(p)
+    } else {
+        list_catalogue(p.get("prog", 0))
+    };
+    list_program(p, e0, init, progs)
+}
+
+/// Generated family: `threads` threads x exactly `k` operations over {insert a fresh element,
+/// delete the thread's own element of the initial list (once), delete what the thread inserted
+/// last, traverse} x 3 initial lists. Every element is deleted by at most one thread.
+pub const L_LETTERS: i64 = 4;
+pub const L_INITS: i64 = 3;
+
+pub fn gen_list_cases(threads: usize, k: usize) -> i64 {
+    L_INITS * L_LETTERS.pow((threads * k) as u32)
+}
+
+fn gen_list_program(p: &Params) -> (Vec<usize>, Vec<Vec<LOp>>) {
+    use LOp::*;
+    let threads = p.get("threads", 2) as usize;
+    let k = p.get("k", 2) as usize;
+    let mut idx = p.get("case", 0);
+    // initial elements 1..=n; thread t may delete initial element t+1
+    let init: Vec<usize> = match idx % L_INITS {
+        0 => vec![],
+        1 => vec![1, 2],
+        _ => vec![1, 2, 3],
+    };
+    idx /= L_INITS;
+    let mut progs = vec![];
+    let mut fresh = 4usize;
+    for t in 0..threads {
+        let mut ops = vec![];
+        let mut own_deleted = false;
+        let mut inserted: Vec<usize> = vec![];
+        for _ in 0..k {
+            match idx % L_LETTERS {
+                0 => {
+                    if fresh < 8 {
+                        ops.push(Insert(fresh));
+                        inserted.push(fresh);
+                        fresh += 1;
+                    } else {
+                        ops.push(Traverse);
+                    }
+                }
+                1 => {
+                    if !own_deleted && init.contains(&(t + 1)) {
+                        ops.push(Delete(t + 1));
+                        own_deleted = true;
+                    } else {
+                        ops.push(Traverse);
+                    }
+                }
+                2 => match inserted.pop() {
+                    Some(id) => ops.push(Delete(id)),
+                    None => ops.push(Traverse),
+                },
+                _ => ops.push(Traverse),
+            }
+            idx /= L_LETTERS;
+        }
+        progs.push(ops);
+    }
+    (init, progs)
+}
+
+fn list_catalogue(prog: i64) -> (Vec<usize>, Vec<Vec<LOp>>) {
+    use LOp::*;
+    match prog {
         0 => (vec![1, 2, 3], vec![vec![Traverse], vec![Delete(2), Delete(1)], vec![Insert(4)]]),
         1 => (vec![1, 2], vec![vec![Traverse, Traverse], vec![Delete(1)], vec![Delete(2)]]),
         2 => (vec![1], vec![vec![Traverse], vec![Insert(2), Delete(2)], vec![Traverse]]),
         3 => (vec![1, 2, 3], vec![vec![Delete(2), Traverse], vec![Delete(3), Traverse]]),
         4 => (vec![1, 2, 3], vec![vec![Traverse], vec![Delete(3), Traverse], vec![Delete(2)]]),
         _ => (vec![], vec![vec![Insert(1), Traverse], vec![Insert(2), Traverse], vec![Traverse]]),
-    };
+    }
+}
+
+fn list_program(p: &Params, e0: usize, init: Vec<usize>, progs: Vec<Vec<LOp>>) -> Program {
+    use LOp::*;
     let ew = EWorld::new(e0);
     let run_op = |c: &ECtx, ew: &EWorld, h: &LocalHandle, op: LOp| {
         let g = h.pin();
         match op {
             Insert(id) => {
                 let i = mon().op_begin(c.t, "linsert", [0, id as i64, 0, 0]);
+                // from its invocation on, the element may legitimately show up in traversals
+                mon().ebr.list_invoked.insert(id);
                 let e = ew.list.insert(id, &g);
                 ew.elems[id].put(e);
                 let m = mon();
@@ -1202,7 +1339,7 @@ fn list(p: &Params) -> Program {
                     let mut s = seen.clone();
                     s.sort();
                     s.dedup();
-                    if s.len() != seen.len() || seen.iter().any(|id| !m.ebr.list_inserted.contains_key(id)) {
+                    if s.len() != seen.len() || seen.iter().any(|id| !m.ebr.list_invoked.contains(id)) {
                         m.violate("C18", "traversal-garbage", format!("a traversal returned {:?}", seen));
                     }
                 }
